@@ -1,6 +1,6 @@
 (* C09 model driver: `open C09_m`, conv.inc and Common are prepended by bin/build_driver.
    Case grammar: see checks/C09.py.  The evaluation parameters of the C09 model are instantiated with the
-   spline of C01_Model.v / C08_Model.v (coq/C09_Evals.v), so every token is predicted: the indices returned by
+   value computations of coq/C09_Model2.v (step_full; the Steffen coefficient vectors come from C01_Model.build), so every token is predicted: the indices returned by
    Locate and the values of all queries, each on the used object, on a fresh object with the same prefactor
    and (Interpolate / Derivative) on a fresh object with prefactor 1; the prefactor after every
    Set_Prefactor / Multiply; EXIT; the 2-D Global_* values too (glob2 of C09_Model.v).
@@ -42,7 +42,11 @@ let read_tab1 r ~trace =
   let stp =
     if trace then (fun st o -> step fops n xv (fun _ _ -> 0.0) (fun _ _ _ -> 0.0) (fun _ _ _ _ _ -> 0.0)
                       (fun _ _ _ _ _ _ _ _ -> 0.0) (fun _ _ -> 0.0) st o)   (* values are not printed in trace mode *)
-    else (let obj = build fops (Array.to_list xs) ys in fun st o -> step_steffen fops obj n xv st o) in
+    else (let obj = build fops (Array.to_list xs) ys in      (* C01_Model.build: only the Steffen coefficient vectors a, b, c, d are taken from it *)
+          let arr l = mk_xv (Array.of_list l) in
+          let fv = arr ys and av = arr obj.ia and bv = arr obj.ib and cv = arr obj.ic and dv = arr obj.id in
+          (* the value computations are those of C09_Model2.v (step_full), line by line after Numerics.cpp *)
+          fun st o -> step_full fops n xv fv av bv cv dv st o) in
   { t_n = n; t_xv = xv; t_obj = o; t_stp = stp; t_kind = (fun st x -> iz (locate_kind fops n xv st x)) }
 
 let bad1 = function
